@@ -135,6 +135,11 @@ fn main() {
             }
             w.flush().unwrap();
         }
+        Some("mtstress") => {
+            // mtstress <scenario> <threads> <iterations> <out.ndjson>
+            let r = mt::run_stress(&args[2], args[3].parse().unwrap(), args[4].parse().unwrap());
+            std::fs::write(&args[5], serde_json::to_string(&r).unwrap() + "\n").unwrap();
+        }
         Some("mtenum") => {
             // mtenum <scenario> <threads> <max_preemptions> <out.ndjson> [stride]
             let scenario = args[2].clone();
